@@ -170,3 +170,12 @@ package structs
 //@   assumed
 //@   pure
 //@ end
+
+// which blocks of a file a request covers: the whole file, or every block that
+// is not excluded (verified: functional and pure)
+//@ func (*BlockTracker).ShouldProcessBlock
+//@   props C03
+//@   requires bt != nil
+//@   pure
+//@   ensures result == (bt.entireFile || !haskey(bt.excludeBlocks, blkNum))
+//@ end
